@@ -1247,6 +1247,26 @@ func reasmFamily(ctx *Ctx) error {
 			}
 		}
 	}
+	if ctx.Prop == "C10" && ctx.Thorough() {
+		// a window larger than any size ladder reaches: 2^17+2 events buffered in a window of 200000 (filling it costs
+		// the library about half a minute: every new event re-sorts the list). Nothing is complete, no timeout has
+		// elapsed, the buffer never holds more than maxInFlight events: nothing may be delivered before Close.
+		in := map[string]interface{}{"kind": "wide-window", "max_in_flight": 200000, "events": 1<<17 + 2}
+		guardEnter(in)
+		st := &earlyStream{t0: time.Now()}
+		r, err := libaudit.NewReassembler(200000, time.Hour, st)
+		if err == nil {
+			for i := 0; i < 1<<17+2 && len(st.el) == 0; i++ {
+				r.PushMessage(&auparse.AuditMessage{RecordType: tSYSCALL, Sequence: uint32(1000 + i)})
+				if len(st.el) > 0 {
+					res.Violate(common.Violation{Kind: "monitor", Input: in, Clause: fmt.Sprintf("C10: an event was evicted without cause when event number %d arrived: incomplete, timeout 1h not elapsed, %d events buffered <= maxInFlight 200000", i+1, i+1)})
+				}
+			}
+			r.Close()
+		}
+		guardLeave()
+		res.Hist("wide window")
+	}
 	if ctx.Prop == "C01" {
 		// "any series of calls" includes calls made by several goroutines at once: the uncontrolled rounds of the C11
 		// family (several goroutines on a real multi-core schedule, records of one sequence arriving at the same
